@@ -43,11 +43,11 @@ CHECKS.update({
 _MECH = "Claimed for its mechanisms only: whole builds (subprocesses, file system, event loop) are not encoded; "
 CHECKS.update({
     "C02": dict(
-        engine="E-XH",
-        ref="DESIGN.md section 5 / C02",
-        technique="symbolic execution (CrossHair/z3) of the real diagnostic-message functions over all role / creator / authorship combinations",
-        text=_MECH + "decided: the text (and exception class) of every two-declaration conflict message is symmetric in the order of the two declarations (_file_collision_message, _duplicate_step_message, _duplicate_static_tree_message, _claim_collision_message). The graph-level commutativity of declarations is the E-SQL part of C08.",
-        note="Creators from {two steps, StepUp itself}; paths fixed. Not covered: identity of the final graph across job counts / dispatch orders.",
+        engine="E-XH + E-SQL",
+        ref="DESIGN.md section 5 / C02 and section 9",
+        technique="symbolic execution (CrossHair/z3) of the real diagnostic-message functions over all role / creator / authorship combinations; bounded SMT over a symbolic relational database (E-SQL) for the deferred flag",
+        text=_MECH + "decided: the text (and exception class) of every two-declaration conflict message is symmetric in the order of the two declarations (_file_collision_message, _duplicate_step_message, _duplicate_static_tree_message, _claim_collision_message). The graph-level commutativity of declarations is the E-SQL part of C08. Also decided (E-SQL, inductive step over the real mark_completed / update_file_hashes / mark_step_pending from any state within the bound): no completion or file update leaves a step deferred whose dynamic inputs are all available -- the deferred flag is the one piece of state through which 'who finished first' can decide whether a build succeeds.",
+        note="Creators from {two steps, StepUp itself}; paths fixed; E-SQL bounds as for C09. Not covered: identity of the final graph across job counts / dispatch orders.",
     ),
     "C03": dict(
         engine="E-XH + E-Z3",
@@ -92,7 +92,7 @@ CHECKS.update({
         engine="E-SQL",
         ref="DESIGN.md section 5 / C12",
         technique="bounded SMT over a symbolic relational database (E-SQL) with the real Scheduler.pop_next_job, Step.hold and Step.release run natively by the fork-on-concretise executor; models replayed on a real SQLite database through the real classes",
-        text="Resource and hold clauses as inductive steps from any state within the capacity bound: one real pop_next_job() keeps 'units held by RUNNING steps <= available, and no RUNNING step requires an undefined resource', and moves a step to RUNNING only without a stored hash (CHECKING otherwise); after hold() on a RUNNING step, the next pop_next_job() never moves a descendant to RUNNING; hold()/release() flag every cache they make stale.",
+        text="Resource and hold clauses as inductive steps from any state within the capacity bound: one real pop_next_job() keeps 'units held by RUNNING steps <= available, and no RUNNING step requires an undefined resource', and moves a step to RUNNING only without a stored hash (CHECKING otherwise); after hold() on a RUNNING step, the next pop_next_job() never moves a descendant to RUNNING; hold()/release() flag every cache they make stale; a fully recycled step requires exactly the resources of the new declaration.",
         note="The job limit (an asyncio loop counting running tasks) and promoted hash jobs are not state and are outside. Scheduler._derive_job is stubbed in these obligations. Bounds: K=4 nodes quick, 5 thorough; 2 resource requirements, 2 available resources with 0..3 units.",
     ),
 })
@@ -103,6 +103,51 @@ CHECKS.update({
         technique="bounded SMT over a symbolic relational database (E-SQL): the live UPDATE/PROPAGATE_CHECK_AFTER, RECONCILE_TARGET_DIRS and the optional-step SQL of finalize are given a z3 semantics and the real Scheduler._update_meta_after, Workflow.reconcile_targets and revert_optional_steps run natively against it; CrossHair for need_threshold and tui._normalize_targets",
         text="From any database state within the capacity bound: after the scheduler's recomputation the cached need of every active step equals the least fixed point of the need equation written from the property text (own need; TARGET for producers of regular outputs named by a target or under a directory target; consumers' needs through pending/regular/orphan rules); reconcile_targets leaves no step with a stale need unflagged for ANY previous target configuration; dropping an input edge or detaching a consumer flags the producers; revert_optional_steps reverts exactly the attached OPTIONAL non-pending steps and queues exactly their regular (with hash) and volatile (without) outputs; the dispatch threshold is DEFAULT iff targets exist; a raw target is a directory target iff it ends in '/'.",
         note="'Executed' in the sense of commands run is C10/C03; here: the need attribute and the revert pass. Bounds: K=4 nodes, D=2-3 edges quick; K=5 thorough; labels from {a, b, d/x}, one directory target d/. Two genuine defects found and repaired (see known_findings.json).",
+    ),
+})
+_ESQL = "bounded SMT over a symbolic relational database (E-SQL): the live SQL (schema, CHECK constraints, triggers, recursive CTEs) is given a z3 semantics over K node slots and D dependency edges, the real Python methods run natively against it with a fork-on-concretise executor (every feasible value of what the code reads is explored), the post-condition is one solver query per path; every model is replayed on a real SQLite database through the real classes"
+CHECKS.update({
+    "C09": dict(
+        engine="E-SQL",
+        ref="DESIGN.md section 5 / C09 and section 9",
+        technique=_ESQL,
+        text="Inductive step, one obligation per operation (Node.detach, Step.reattach, Workflow.delete_detached, amend_step with an input / output / volatile output, Step.mark_completed success and failure, Workflow.mark_step_pending, update_file_hashes for each of the four causes, the recycle branch of Trellis.create, Trellis.try_recycle): from ANY database state within the bound that satisfies the schema and the invariants, the operation either raises a UsageError or leads to a state in which a node is detached iff unreachable from the root through creator links, dependencies are acyclic and only link files with steps, UNDECLARED files are detached, outputs of a SUCCEEDED step are BUILT or VOLATILE, and states agree with hash presence; it never raises ConsistencyError or another internal error.  Induction covers sequences of any length composed of these operations.",
+        note="Bounds: K=3-4 nodes, D=1-3 edges quick (per operation, sized by path count), one more thorough. Assumed, not re-established: invariants I6, I8, I9 (DESIGN section 9.3), creator links form a forest, update_file_hashes is applied only to (cause, state) pairs of its transition table, no static trees / globs in the state. Not covered: INSERT of brand-new steps (define_step), reset_for_rerun as a whole, step state transitions as a temporal property.",
+    ),
+    "C01": dict(
+        engine="E-SQL + E-XH",
+        ref="DESIGN.md section 5 / C01 and section 9",
+        technique=_ESQL + "; CrossHair for the two startup rescans",
+        text=_MECH + "decided: the stale-propagation closure -- after update_file_hashes (every cause), mark_completed (success, failure) and mark_step_pending, from any state within the bound, no step that consumes a file which became available (or changed while available) is SUCCEEDED, FAILED or deferred, and no output of a step that left SUCCEEDED is still BUILT, attached or detached (local rules applied to every change give the transitive closure); the environment rescan at startup marks exactly the steps whose recorded value differs; the glob rescan uses the registered substitutions.",
+        note="Bounds as for C09. The composition over a history of edits and builds, commands and file contents are outside.",
+    ),
+    "C04": dict(
+        engine="E-SQL + E-XH",
+        ref="DESIGN.md section 5 / C04 and section 9",
+        technique=_ESQL + "; CrossHair for the environment recorded in a step hash and for the glob rescan",
+        text=_MECH + "decided: recording an external change of one file makes a step leave SUCCEEDED only inside the cone (it consumes a file whose state changed or the edited file, or created the edited file), changes no other file outside it, drops no stored step hash; the environment values that go into a step hash are those of the command's environment; a glob rescan over an unchanged file system changes nothing.",
+        note="Bounds as for C09 (update_file_hashes EXTERNAL). 'Rewrites no output' on disk and the job count of a real rebuild are outside; skipping on equal digests is C03, FileHash.refreshed identity is C13.",
+    ),
+    "C05": dict(
+        engine="E-SQL",
+        ref="DESIGN.md section 5 / C05 and section 9",
+        technique=_ESQL,
+        text="Recovery half only. Trusted: SQLite commits atomically, so the database found after a kill is a committed state, which by C09 satisfies the invariants (possibly with RUNNING / CHECKING steps and hold counters). From ANY such state within the bound the real reset_interrupted_steps leaves no step RUNNING or CHECKING, no attached step FAILED, every attached interrupted step PENDING and schedulable with no output still BUILT, and the invariants hold; Trellis.try_recycle never yields a FAILED, holding or detached step.",
+        note="Outside: durability / WAL, crash points inside a step's own file-system actions, Workflow.to_be_deleted being memory-only, equality of the completed build with an uninterrupted one.",
+    ),
+    "C07": dict(
+        engine="E-SQL",
+        ref="DESIGN.md section 5 / C07 and section 9",
+        technique=_ESQL,
+        text="Graph side. From any state within the bound the real Workflow.delete_detached reaches its fixed point (no detached node without products and sinks survives), deletes no attached node, queues every deleted VOLATILE file unconditionally and every deleted BUILT / OUTDATED file with its recorded hash together with its parent directory, queues nothing else, strips the stored hash of a surviving step that lost a product, and keeps the invariants of C09; revert_optional_steps reverts exactly the executed optional steps and queues exactly their outputs. Removal from disk, and only when unmodified, is C06.",
+        note="Bounds: K=3 nodes quick, K=4 thorough (10 279 paths), 2 labels. Static trees are outside.",
+    ),
+    "C08": dict(
+        engine="E-SQL",
+        ref="DESIGN.md section 5 / C08 and section 9",
+        technique=_ESQL,
+        text="Claims on one path. From any state within the bound _check_declaration accepts a declaration as new exactly when no attached file node has the path, reports 'already declared' exactly when the attached node has the same role and creator, and rejects otherwise; for every pair of declarations of one path (static / output / volatile, same or different creators) through the real declare_static_files / amend_step, a rejection happens in the order D1;D2 iff it happens in D2;D1, and at no point two attached file nodes exist for the path; a path matched by a registered glob pattern cannot be declared as an output or volatile output (amend_step). The string side (static trees, all spellings) is C18, glob patterns C17, message text C02.",
+        note="Bounds: K=4 nodes. Static trees, glob patterns, define_step as a whole and the root's own declarations are outside.",
     ),
 })
 NOT_APPLICABLE = {
